@@ -136,6 +136,24 @@ struct socks_run
 	}
 
 	// ---- client side
+	// 1-3 bytes of the negotiation replaced by arbitrary values, or a byte inserted / removed (seeded)
+	static void scramble(std::string& g, std::string& r, std::uint32_t seed)
+	{
+		auto next = [&seed]() { seed = seed * 1664525u + 1013904223u; return seed >> 8; };
+		int n = 1 + int(next() % 3);
+		for (int k = 0; k < n; ++k)
+		{
+			std::string& t = (!g.empty() && next() % 3 == 0) ? g : r;
+			if (t.empty()) continue;
+			std::size_t pos = next() % t.size();
+			switch (next() % 4)
+			{
+				case 0: t.insert(pos, 1, char(next() & 0xff)); break;
+				case 1: if (t.size() > 1) t.erase(pos, 1); break;
+				default: t[pos] = char(next() & 0xff); break;
+			}
+		}
+	}
 	std::string build_negotiation(session& s)
 	{
 		std::string g, r;
@@ -168,6 +186,7 @@ struct socks_run
 				if (atyp == 4) r += std::string(12, '\x01');
 			}
 			r += char(port >> 8); r += char(port & 0xff);
+			if (s.mutate == "random") scramble(g, r, std::uint32_t(s.mutval));
 			s.stage = 0;
 			s.negotiation = g;
 			return r;
@@ -176,6 +195,7 @@ struct socks_run
 		r += char(mut("version", 4)); r += char(cmd); r += char(port >> 8); r += char(port & 0xff);
 		r += s.cmd == "bind" ? std::string("\x0a\x00\x00\x01", 4) : s.target == "unres" ? std::string("\x0a\x00\x00\x63", 4) : std::string("\x0a\x00\x00\x05", 4);
 		r += char(mut("userid", 0));
+		if (s.mutate == "random") { std::string none; scramble(none, r, std::uint32_t(s.mutval)); }
 		s.stage = 1;
 		s.negotiation = r;
 		return std::string();
@@ -411,7 +431,7 @@ struct socks_run
 			{
 				int cb = s->cmd == "connect" ? 1 : s->cmd == "bind" ? 2 : 3;
 				if (s->mutate == "command") cb = s->mutval;
-				d["cmdname"] = cb == 1 ? "connect" : cb == 2 ? "bind" : cb == 3 ? "udp" : "none";
+				d["cmdname"] = s->mutate == "random" ? "any" : cb == 1 ? "connect" : cb == 2 ? "bind" : cb == 3 ? "udp" : "none";
 			}
 			d["cmdbyte_valid"] = !(s->mutate == "command" && (s->mutval < 1 || s->mutval > (version == 4 ? 2 : 3)));
 			d["reaches_request"] = (version == 4 || (s->mutate != "version" && s->mutate != "nmethods" && s->mutate != "method")) && (s->eof_at < 0 || s->eof_at >= int(s->negotiation.size() + (version == 5 ? 2 : 0)));
